@@ -117,6 +117,9 @@ type Vaxis struct {
 	cursorNext       cursorState
 	cursorLast       cursorState
 	closed           bool
+	// suspended is true between Suspend and Resume: the terminal is in
+	// the user's state and nothing of ours is left to undo
+	suspended bool
 	refresh          bool
 	kittyFlags       int
 	disableMouse     bool
@@ -1406,6 +1409,13 @@ func (vx *Vaxis) Suspend() error {
 	// 2. Send a DA1 query so there is data on the reader, breaking the read
 	//    loop
 	// 3. Confirm we have closed
+	if vx.suspended {
+		// Already suspended (Suspend twice, or Close while suspended):
+		// undoing our modes again would undo the user's (the kitty
+		// keyboard pop is not idempotent)
+		return nil
+	}
+	vx.suspended = true
 	vx.parser.Close()
 	io.WriteString(vx.console, primaryAttributes)
 	// The parser can only finish once everything it has parsed is taken
@@ -1517,6 +1527,7 @@ func (vx *Vaxis) Resume() error {
 	if err != nil {
 		return err
 	}
+	vx.suspended = false
 
 	vx.enterAltScreen()
 	vx.enableModes()
